@@ -126,12 +126,25 @@ ActionOk(a) ==
   /\ a.k = "m"
   /\ Has(a, "code") => (a.m["code"].k \in {"s", "v"} /\ a.m["code"].a \notin BadJs)
 
+\* The indexed state's rule index takes only arrays whose elements are all
+\* strings, all numbers or all booleans; a rule whose `when` is outside that
+\* fragment may be refused (nothing is stored then).
+RECURSIVE Indexable(_)
+Indexable(p) ==
+  CASE p.k = "m" -> \A f \in DOMAIN p.m : Indexable(p.m[f])
+    [] p.k = "l" -> \/ \A e \in p.l : e.k \in {"s", "v"}
+                    \/ \A e \in p.l : e.k = "n"
+                    \/ \A e \in p.l : e.k = "b"
+                    \/ Cardinality(p.l) = 1 /\ \A e \in p.l : e.k \in {"s", "v", "n", "b", "z"}
+    [] OTHER -> TRUE
+
 \* Location.AddRule's validation (core.RuleFromMap), for the rule grammar the
 \* generators use: when.pattern or schedule, action or actions, optional condition
 ValidRule(rb) ==
   /\ rb.k = "m"
   /\ (Has(rb, "when") /\ ~Has(rb, "schedule") /\ HasWhenPattern(rb))
        \/ (~Has(rb, "when") /\ Has(rb, "schedule") /\ rb.m["schedule"].k = "s" /\ rb.m["schedule"].a # "")
+  /\ Has(rb, "expires") => rb.m["expires"].k = "n"     \* the rule parser takes numbers only
   /\ ~(Has(rb, "action") /\ Has(rb, "actions"))
   /\ \/ Has(rb, "action") /\ ActionOk(rb.m["action"])
      \/ Has(rb, "actions") /\ rb.m["actions"].k = "l" /\ rb.m["actions"].l # {}
@@ -291,6 +304,8 @@ OpAddRule(mr, mw, ro, op) ==
      ELSE IF ~ValidRule(op.val) \/ se.err THEN {Out(mw, ro, Resp("error"))}
      ELSE IF a.c # "ok" THEN {Out(mw, ro, Resp(a.c))}
      ELSE {Out(SetLoc(mw, l, a.m), ro, [R0 EXCEPT !.id = a.id])}
+          \cup (IF HasWhenPattern(op.val) /\ ~Indexable(WhenPattern(op.val))
+                THEN {Out(mw, ro, Resp("error"))} ELSE {})
 
 OpRemRule(mr, mw, ro, op) ==
   LET l == op.loc  now == op.now
@@ -427,6 +442,20 @@ StepR(mr, mw, ro, op) ==
 \* during it.
 Step(mem, ro, op, G) ==
   UNION {StepR(PurgeAll(mem, G1), PurgeAll(mem, G), ro, op) : G1 \in SubG(G)}
+
+-----------------------------------------------------------------------------
+(* Named deviations: what the code is known to do where it breaks a        *)
+(* property and the defect is recorded rather than repaired                *)
+(* (known_findings.json).  They are never part of Step; trace validation   *)
+(* uses one only when no strict outcome explains a line, and reports it.   *)
+
+DevOut(mem, ro, r, d) == [mem |-> mem, ro |-> ro, resp |-> r, dev |-> d]
+
+DevStep(mem, ro, op, G, impl) ==
+  \* D_UNSORTABLE_EVENT (C01): the indexed state's rule index refuses an event
+  \* that holds an array of mixed or non-scalar elements, so no rule is found
+  (IF impl = "indexed" /\ op.op \in {"ProcessEvent", "SearchRules"} /\ ~Indexable(op.val)
+   THEN {DevOut(PurgeAll(mem, G), ro, Resp("error"), "D_UNSORTABLE_EVENT")} ELSE {})
 
 \* Expired items the operation certainly walks over: they have to be gone
 \* afterwards (location -> ids).
